@@ -175,22 +175,45 @@ def make_layer(norm, se, act, c, W, b, via='conv'):
     return layer
 
 
+def with_duplicates(a_csr, rng):
+    """The same matrix as a CSR with un-summed duplicates: a stored entry v becomes v/2 + v/2, or (v+1) + (-1), and
+    cancelling pairs (+1, -1) are stored at positions where the matrix has no entry (a non-edge)."""
+    a = a_csr.tocoo()
+    rows, cols, data = [], [], []
+    for i, j, v in zip(a.row.tolist(), a.col.tolist(), a.data.tolist()):
+        kind = rng.choice(['halves', 'plus-minus', 'single'])
+        if kind == 'halves':
+            parts = [v / 2, v / 2]
+        elif kind == 'plus-minus' and float(v + 1) - 1 == v:
+            parts = [v + 1, -1.0]
+        else:
+            parts = [v]
+        for q in parts:
+            rows.append(i), cols.append(j), data.append(q)
+    n, m = a_csr.shape
+    present = set(zip(a.row.tolist(), a.col.tolist()))
+    for _ in range(rng.randint(0, 2)):
+        if n and m:
+            i, j = rng.randrange(n), rng.randrange(m)
+            if (i, j) not in present:
+                rows += [i, i]
+                cols += [j, j]
+                data += [1.0, -1.0]
+    rows, cols, data = np.array(rows, dtype=int), np.array(cols, dtype=int), np.array(data, dtype=float)
+    order = np.lexsort((cols, rows)) if len(rows) else np.array([], dtype=int)
+    indptr = np.zeros(n + 1, dtype=int)
+    if len(rows):
+        np.add.at(indptr, rows + 1, 1)
+    return sparse.csr_matrix((data[order], cols[order], np.cumsum(indptr)), shape=a_csr.shape)
+
+
 def adjacency_in_format(a_csr, fmt, rng):
     if fmt == 'csr':
         return a_csr.copy()
     if fmt == 'unsorted':
         return graphs.unsorted_copy(a_csr, rng)
     if fmt == 'dup':
-        # the same matrix with every stored entry split into two halves (un-summed duplicates)
-        a = a_csr.tocoo()
-        rows = np.concatenate([a.row, a.row])
-        cols = np.concatenate([a.col, a.col])
-        data = np.concatenate([a.data / 2, a.data / 2])
-        order = np.lexsort((cols, rows))
-        indptr = np.zeros(a_csr.shape[0] + 1, dtype=int)
-        np.add.at(indptr, rows + 1, 1)
-        m = sparse.csr_matrix((data[order], cols[order], np.cumsum(indptr)), shape=a_csr.shape)
-        return m
+        return with_duplicates(a_csr, rng)
     if fmt == 'csc':
         return a_csr.tocsc()
     if fmt == 'coo':
@@ -203,6 +226,8 @@ def adjacency_in_format(a_csr, fmt, rng):
         return a_csr.astype(bool)           # callers use it on 0/1 weights only
     if fmt == 'int':
         return a_csr.astype(np.int64)       # callers use it on integer weights only
+    if fmt in ('float32', 'uint8', 'int32'):
+        return a_csr.astype({'float32': np.float32, 'uint8': np.uint8, 'int32': np.int32}[fmt])
     if fmt == 'csr_array':
         return sparse.csr_array(a_csr)
     if fmt == 'np_matrix':
@@ -219,8 +244,12 @@ def usable_format(a_csr, fmt):
     """dtype variants only where they denote the same matrix"""
     if fmt == 'bool':
         return bool((a_csr.data == 1).all())
-    if fmt == 'int':
+    if fmt in ('int', 'int32'):
         return bool((a_csr.data == np.round(a_csr.data)).all())
+    if fmt == 'uint8':
+        return bool(((a_csr.data == np.round(a_csr.data)) & (a_csr.data >= 0) & (a_csr.data < 256)).all())
+    if fmt == 'float32':
+        return bool((a_csr.data.astype(np.float32).astype(float) == a_csr.data).all())
     return True
 
 
@@ -230,7 +259,11 @@ def features_in_format(X, fmt):
         return X
     if fmt == 'int':
         return X.astype(np.int64) if (X == np.round(X)).all() else X
+    if fmt == 'np_matrix':
+        return np.matrix(X)
     m = sparse.csr_matrix(X)
+    if fmt == 'csr_array':
+        return sparse.csr_array(m)
     return {'csr': m, 'csc': m.tocsc(), 'coo': m.tocoo(), 'lil': m.tolil()}[fmt]
 
 
@@ -250,13 +283,17 @@ def forward_cases(ctx, a_csr, X, W, b, norm, se, act, afmt='csr', xfmt='dense', 
     kind = container_token(A_in)
     sig = {'entry': 'Convolution.forward', 'adjacency': afmt, 'normalization': eff_norm}
 
+    seen = {}
+
     def f():
         layer = make_layer(norm, se, act, c, W, b, via)
         out = layer(A_in, X_in)
+        emb = np.asarray(layer.embedding, dtype=float)
+        seen['embedding_max'] = float(np.abs(emb).max()) if emb.size else 0.0
         m = numeric_matrix(out, strict=True)
         if m is None:
             return 'err not-a-float-ndarray'
-        if not np.array_equal(np.asarray(layer.output, dtype=float), m):
+        if not np.array_equal(np.asarray(layer.output, dtype=float), m, equal_nan=True):
             return 'err output-attribute-differs'
         return 'ok ' + enc_out(m)
     impl = call(f)
@@ -267,7 +304,11 @@ def forward_cases(ctx, a_csr, X, W, b, norm, se, act, afmt='csr', xfmt='dense', 
     args = '%s %s %s %s %s %s %s' % (eff_norm, '1' if eff_se else '0', eff_act, a_tok, x_tok, w_tok, b_tok)
     run = 'c19.forward %s %s' % (kind, args)
     spec = None
-    if impl.startswith('ok '):
+    if impl.startswith('ok ') and eff_act == 'softmax' and not seen.get('embedding_max', 0.0) < 500:
+        # the textbook soft-max of the specification overflows at float64 beyond exp(709): the run line (scipy's
+        # shifted form, equal over the reals by softmax_shift_invariant) judges this case alone
+        ctx.count('forward:softmax-spec-skipped-overflow')
+    elif impl.startswith('ok '):
         spec = 'c19.spec_forward %s d:%s' % (args, impl[3:])
     elif kind != 'other' and a_csr.shape[1] == X.shape[0] and X.shape[1] == np.asarray(W).shape[0] and \
             (eff_norm in ('left', 'none') or a_csr.shape[0] == a_csr.shape[1]):
@@ -324,10 +365,13 @@ def forward_grid(ctx, a_csr, rng, full, tag='forward', afmts=('csr',), equivaria
     combos = list(itertools.product(NORMS, [False, True], ACTS))
     if not full:
         combos = rng.sample(combos, 6)
-    signed = a_csr.nnz and a_csr.data.min() < 0
+    negative_row = bool(a_csr.nnz) and bool((np.asarray(a_csr.sum(axis=1)).ravel() < 0).any())
     for norm, se, act in combos:
-        if signed and norm == 'both':
-            continue    # square roots of negative weights: NaN semantics of scipy's sparse product, outside the model
+        if negative_row and norm == 'both':
+            # outside InDomain: the square root of a negative row weight is NaN, and scipy's sparse product keeps NaN on
+            # stored entries only (a dense product spreads it) - not described by the model
+            ctx.count('forward:skipped-both-negative-row-weight')
+            continue
         d = rng.randint(1, 3)
         c = rng.randint(1, 4)
         X = rand_matrix(rng, n_col, d, rng.choice(['normal', 'int', 'dyadic']))
@@ -554,21 +598,37 @@ class RecordChoice:
 SAMPLER_FMTS = ('csr', 'csr', 'unsorted', 'csc', 'coo', 'lil', 'dense', 'dup')
 
 
+def sampled_graph_ok(sm, ref, k):
+    """Denotation level: the sampled matrix has entries 0/1, inside the support of the matrix the input denotes, and
+    min(k, number of neighbours) ones per row."""
+    S = sparse.csr_matrix(sm).toarray().astype(float)
+    R = sparse.csr_matrix(ref).toarray() != 0
+    if S.shape != R.shape:
+        return 'shape %s' % (S.shape,)
+    if not np.isin(S, (0.0, 1.0)).all():
+        return 'entries other than 0/1: %s' % sorted(set(S.ravel().tolist()))[:5]
+    if (S > R).any():
+        i, j = np.argwhere(S > R)[0]
+        return 'entry (%d,%d) is not an edge of the graph' % (i, j)
+    want = np.minimum(k, R.sum(axis=1))
+    if not np.array_equal(S.sum(axis=1), want):
+        return 'row counts %s, want %s' % (S.sum(axis=1).tolist(), want.tolist())
+    return None
+
+
 def sampler_cases(ctx, a, k, seed, fmt='csr'):
     """a: csr (explicit zeros allowed), k: sample size, fmt: the container handed to the sampler."""
     from sknetwork.gnn.neighbor_sampler import UniformNeighborSampler
-    n = a.shape[0]
-    if fmt in ('csr', 'unsorted', 'dup'):
-        A_in = a.copy() if fmt == 'csr' else adjacency_in_format(a, fmt, ctx.rng)
-    else:
-        A_in = adjacency_in_format(a, fmt, ctx.rng)
+    n, m = a.shape
+    A_in = a.copy() if fmt == 'csr' else adjacency_in_format(a, fmt, ctx.rng)
     ref = sparse.csr_matrix(A_in)            # the CSR matrix of the same stored entries (what check_format builds)
     ref = sparse.csr_matrix((np.asarray(ref.data, dtype=float), ref.indices.copy(), ref.indptr.copy()), shape=ref.shape)
     ip, ix, dt = enc_list(ref.indptr), enc_list(ref.indices), enc_flat(ref.data)
-    desc = {'kind': 'sampler', 'shape': list(a.shape), 'indptr': a.indptr.tolist(), 'indices': a.indices.tolist(),
-            'data': a.data.tolist(), 'sample_size': k, 'seed': seed, 'container': fmt}
+    desc = {'kind': 'sampler', 'shape': list(ref.shape), 'indptr': ref.indptr.tolist(), 'indices': ref.indices.tolist(),
+            'data': ref.data.tolist(), 'sample_size': k, 'seed': seed, 'container': 'csr' if fmt in ('unsorted', 'dup') else fmt}
+    has_dup = any(len(set(r)) < len(r) for r in csr_rows(ref))
     sig = {'entry': 'UniformNeighborSampler', 'container': fmt,
-           'explicit_zero': bool(ref.nnz and (ref.data == 0).any())}
+           'explicit_zero': bool(ref.nnz and (ref.data == 0).any()), 'duplicates': has_dup}
     before = ref.toarray().copy()
     np.random.seed(seed)
     with RecordChoice() as rec:
@@ -578,17 +638,27 @@ def sampler_cases(ctx, a, k, seed, fmt='csr'):
         ctx.spec_fail(sig, desc, {'sampler': s})
         return out
     s = sparse.csr_matrix(s)
+    bad = sampled_graph_ok(s, ref, k)
+    if bad is not None:
+        ctx.spec_fail(sig, desc, {'sampled_graph': bad, 'sampled': s.toarray().tolist()})
     untouched = np.array_equal(before, sparse.csr_matrix(A_in).toarray())
-    ones = bool((s.data == 1).all()) and s.shape == a.shape
-    impl = 'ok ' + enc_rows(csr_rows(s)) if (untouched and ones) else 'err input-modified-or-data-not-one'
+    ones = bool((s.data == 1).all()) and s.shape == ref.shape
+    rows = [sorted(r) for r in csr_rows(s)]
+    impl = 'ok ' + enc_rows(rows) if (untouched and ones) else 'err input-modified-or-data-not-one'
     choice = [c for _, c in rec.calls]
     degs = [d for d, _ in rec.calls]
-    ch = enc_rows(choice) if len(choice) == n else enc_rows([[]] * n)
-    out.append(Case(('sampler', ip, ix, dt, k, seed, fmt), sig, 'c19.sample %d %s %s %s %s' % (n, ip, ix, dt, ch), impl,
-                    'c19.spec_sample %d %s %s %s %d %s' % (n, ip, ix, dt, k, enc_rows(csr_rows(s))), a.nnz > 0, desc))
+    spec = 'c19.spec_sample %d %d %s %s %s %d %s' % (n, m, ip, ix, dt, k, enc_rows(rows))
+    key = ('sampler', ip, ix, dt, k, seed, fmt)
     if len(choice) == n:
+        ch = enc_rows(choice)
+        out.append(Case(key, sig, 'c19.sample %d %d %s %s %s %s' % (n, m, ip, ix, dt, ch), impl, spec, a.nnz > 0, desc))
         out.append(Case(('choice', ip, k, seed, fmt), {'entry': 'np.random.choice', 'contract': True}, None, 'holds',
                         'c19.contract_choice %d %s %d %s' % (n, enc_list(degs), k, ch), False, desc))
+    else:
+        # the draws could not be recorded (the sampler does not go through np.random.choice once per row any more):
+        # no run line, the specification alone judges the result
+        ctx.count('sampler:draws-not-recorded')
+        out.append(Case(key, sig, None, impl, spec, a.nnz > 0, desc))
     ctx.count('sampler:k=%d' % k)
     ctx.count('sampler:container:' + fmt)
     return out
@@ -610,6 +680,38 @@ def _layer_type_sig(lt):
     return lt if isinstance(lt, str) else 'mixed'
 
 
+def _named(kind, name, as_object):
+    """an activation / a loss by name or as an object"""
+    if not as_object or name is None:
+        return name
+    from sknetwork.gnn.activation import get_activation
+    from sknetwork.gnn.loss import get_loss
+    return get_loss(name) if kind == 'loss' else get_activation(name)
+
+
+def build_layer_objects(specs):
+    """`layers=[...]` of GNNClassifier: layer objects built directly (Convolution) or through get_layer."""
+    from sknetwork.gnn.layer import Convolution, get_layer
+    layers = []
+    for sp in specs:
+        kw = dict(out_channels=sp['out'], activation=_named('activation', sp['activation'], sp['objects']),
+                  use_bias=sp['use_bias'], normalization=sp['normalization'], self_embeddings=sp['self_embeddings'])
+        if sp['sample_size'] != 'default':
+            kw['sample_size'] = sp['sample_size']
+        if sp['loss'] is not None:
+            kw['loss'] = _named('loss', sp['loss'], sp['objects'])
+        layers.append(Convolution(sp['type'], **kw) if sp['ctor'] == 'Convolution' else get_layer(sp['type'], **kw))
+    return layers
+
+
+def requested_types(cfg, n_layers):
+    """the layer type asked for, per layer (what decides whether the layer's adjacency is sampled)"""
+    if cfg.get('layers'):
+        return [sp['type'] for sp in cfg['layers']]
+    lt = cfg['layer_types']
+    return list(lt) if isinstance(lt, list) else [lt] * n_layers
+
+
 def classifier_cases(ctx, a_csr, X, labels, cfg):
     """Fit a GNNClassifier and check forward / sampled adjacencies / labels_ / predict_proba / seed determinism /
     reinit.  The sampled adjacencies are recorded from the fit itself (`_sample_nodes` wrapped)."""
@@ -624,19 +726,21 @@ def classifier_cases(ctx, a_csr, X, labels, cfg):
         afmt = 'csr'
     xfmt = cfg.get('features_format', 'dense')
     sig = {'entry': 'GNNClassifier', 'loss': cfg['loss'], 'channels': 'one' if c == 1 else 'several',
-           'layer_type': _layer_type_sig(cfg['layer_types']), 'adjacency': afmt, 'features': xfmt}
+           'layer_type': 'objects' if cfg.get('layers') else _layer_type_sig(cfg['layer_types']), 'adjacency': afmt,
+           'features': xfmt}
     A_in = adjacency_in_format(a_csr, afmt, ctx.rng)
     X_in = features_in_format(X, xfmt)
     lab_in = np.array(labels) if isinstance(labels, list) else dict(labels)
     fit_kw = dict(n_epochs=cfg['n_epochs'], random_state=cfg['random_state'], validation=cfg.get('validation', 0))
 
     def build():
+        common = dict(optimizer=cfg['optimizer'], early_stopping=cfg.get('early_stopping', False), patience=cfg.get('patience', 10))
+        if cfg.get('layers'):
+            return GNNClassifier(layers=build_layer_objects(cfg['layers']), **common)
         return GNNClassifier(dims=list(dims), layer_types=cfg['layer_types'], activations=cfg['activations'],
                              use_bias=cfg['use_bias'], normalizations=cfg['normalizations'],
                              self_embeddings=cfg['self_embeddings'], sample_sizes=cfg['sample_size'], loss=cfg['loss'],
-                             optimizer=cfg['optimizer'], early_stopping=cfg.get('early_stopping', False),
-                             patience=cfg.get('patience', 10))
-
+                             **common)
     holder = {}
 
     def fit(g=None, rec=None, **extra):
@@ -647,14 +751,14 @@ def classifier_cases(ctx, a_csr, X, labels, cfg):
 
             def wrapped(adj):
                 r = orig(adj)
-                rec.append(list(r))
+                rec.append((adj, list(r)))
                 return r
             g._sample_nodes = wrapped
         g.fit(A_in.copy(), X_in.copy(), lab_in.copy() if hasattr(lab_in, 'copy') else lab_in, **fit_kw, **extra)
         return g
     rec = []
     g = call(lambda: fit(rec=rec))
-    ctx.count('classifier:%s:%s:c=%d' % (_layer_type_sig(cfg['layer_types']), cfg['loss'], c))
+    ctx.count('classifier:%s:%s:c=%d' % (sig['layer_type'], cfg['loss'], c))
     ctx.count('classifier:adjacency:' + afmt)
     out = []
     if container_token(A_in) == 'other' or container_token(X_in) == 'other':
@@ -663,40 +767,49 @@ def classifier_cases(ctx, a_csr, X, labels, cfg):
         out.append(Case(('fit-refused', afmt, xfmt), dict(sig, check='check_format'), 'c19.check_format other', impl, None,
                         False, desc, canon='exact'))
         return out
-    if isinstance(g, str) and fit_kw['validation'] and getattr(holder.get('g'), 'train_mask', None) is not None \
+    if g == 'err ValueError' and fit_kw['validation'] and getattr(holder.get('g'), 'train_mask', None) is not None \
             and not holder['g'].train_mask.any():
         # the validation split took every labelled node: fit refuses (ValueError from the accuracy score); not a
         # configuration the property speaks about
         ctx.count('classifier:validation-left-no-training-node')
         return out
-    if isinstance(g, str) or not rec:
-        ctx.spec_fail(dict(sig, check='fit'), desc, {'fit': g if isinstance(g, str) else '_sample_nodes not called'})
+    if isinstance(g, str):
+        ctx.spec_fail(dict(sig, check='fit'), desc, {'fit': g})
         return out
-    adjs = rec[-1]
     output = np.asarray(g.output_, dtype=float)
-    # 0. the sampled adjacency of every sage layer: rows are sub-multisets of the rows of the input, min(deg, k) each
     ref = sparse.csr_matrix(A_in).astype(float)
     ip, ix, dt = enc_list(ref.indptr), enc_list(ref.indices), enc_flat(ref.data)
-    for li, (layer, adj) in enumerate(zip(g.layers, adjs)):
-        if layer.layer_type == 'sage':
-            sm = call(lambda: sparse.csr_matrix(adj))
-            rows = None if isinstance(sm, str) or sm.shape != ref.shape else csr_rows(sm)
-            if rows is None or not bool((sm.data == 1).all()):
-                ctx.spec_fail(dict(sig, check='sampled-adjacency'), desc, {'layer': li, 'sampled': str(sm)[:200]})
+    adjs = None
+    if rec and len(rec[-1][1]) == len(g.layers):
+        given, adjs = rec[-1]
+        # 0. which layers are sampled (a type containing 'sage'), what they get (a sub-sample of the neighbours of every
+        #    node), what the other layers get (the graph itself)
+        for li, (layer, adj, req) in enumerate(zip(g.layers, adjs, requested_types(cfg, len(g.layers)))):
+            out.append(Case(('is_sage', req), dict(sig, check='sampled-layer'), 'c19.is_sage ' + _q(req),
+                            '1' if adj is not given else '0', None, True, desc, canon='exact'))
+            if 'sage' in req.lower():
+                sm = call(lambda: sparse.csr_matrix(adj))
+                bad = 'not a matrix: %s' % sm if isinstance(sm, str) else sampled_graph_ok(sm, ref, layer.sample_size)
+                if bad is not None:
+                    ctx.spec_fail(dict(sig, check='sampled-adjacency'), desc, {'layer': li, 'sampled_graph': bad})
+                else:
+                    rows = [sorted(r) for r in csr_rows(sm)]
+                    out.append(Case(('sampled', li, ip, ix, dt, enc_rows(rows)), dict(sig, check='sampled-adjacency'), None,
+                                    'holds', 'c19.spec_sample %d %d %s %s %s %d %s' % (n, n, ip, ix, dt, layer.sample_size,
+                                                                                   enc_rows(rows)), True, desc))
             else:
-                out.append(Case(('sampled', li, ip, ix, dt, enc_rows(rows)), dict(sig, check='sampled-adjacency'), None, 'holds',
-                                'c19.spec_sample_set %d %s %s %s %d %s' % (n, ip, ix, dt, layer.sample_size, enc_rows(rows)),
-                                True, desc))
-        else:
-            # a convolution layer works on the graph itself (`_sample_nodes` leaves its adjacency alone)
-            same = call(lambda: np.array_equal(sparse.csr_matrix(adj).toarray().astype(float), ref.toarray()))
-            if same is not True:
-                ctx.spec_fail(dict(sig, check='conv-layer-adjacency'), desc, {'layer': li, 'adjacency_used': str(same)})
-    # 1. forward through all layers with the fitted parameters and the adjacencies the fit used
-    toks = ' '.join(layer_tokens(l, a) for l, a in zip(g.layers, adjs))
-    key = ('gnn', toks, enc_any(X_in))
-    out.append(Case(key, dict(sig, check='forward'), 'c19.gnn %s %s' % (enc_any(X_in), toks), 'ok ' + enc_out(output),
-                    'c19.spec_gnn %s %s d:%s' % (enc_any(X_in), toks, enc_out(output)), a_csr.nnz > 0, desc))
+                same = call(lambda: np.array_equal(sparse.csr_matrix(adj).toarray().astype(float), ref.toarray()))
+                if same is not True:
+                    ctx.spec_fail(dict(sig, check='conv-layer-adjacency'), desc, {'layer': li, 'adjacency_used': str(same)})
+        # 1. forward through all layers with the fitted parameters and the adjacencies the fit used
+        toks = ' '.join(layer_tokens(l, a) for l, a in zip(g.layers, adjs))
+        key = ('gnn', toks, enc_any(X_in))
+        out.append(Case(key, dict(sig, check='forward'), 'c19.gnn %s %s' % (enc_any(X_in), toks), 'ok ' + enc_out(output),
+                        'c19.spec_gnn %s %s d:%s' % (enc_any(X_in), toks, enc_out(output)), a_csr.nnz > 0, desc))
+    else:
+        # `_sample_nodes` was not called the way it is today (a refactoring of fit): the adjacencies the layers saw are
+        # unknown, the forward pass cannot be re-computed; the remaining checks still apply
+        ctx.count('classifier:adjacencies-not-recorded')
     # 2. one label per node: arg-max / threshold of the output
     o_tok = enc_dense(output)
     labs = np.asarray(g.labels_)
@@ -733,8 +846,9 @@ def classifier_cases(ctx, a_csr, X, labels, cfg):
     return out
 
 
-CLASSIFIER_ADJ_FMTS = ('csr', 'csr', 'csc', 'coo', 'lil', 'dense', 'unsorted', 'dup', 'bool', 'csr_array')
-CLASSIFIER_X_FMTS = ('dense', 'dense', 'csr', 'csc', 'coo', 'lil')
+CLASSIFIER_ADJ_FMTS = ('csr', 'csr', 'csc', 'coo', 'lil', 'dense', 'unsorted', 'dup', 'dup', 'bool', 'float32', 'csr_array')
+CLASSIFIER_X_FMTS = ('dense', 'dense', 'csr', 'csc', 'coo', 'lil', 'csr_array', 'np_matrix')
+BARE_TYPES = ('sage', 'Sage', 'SAGE', 'sageconv', 'Conv', 'conv')
 
 
 def rand_cfg(rng, n_layers, c):
@@ -748,16 +862,30 @@ def rand_cfg(rng, n_layers, c):
     lt = opt(lambda: rng.choice(['conv', 'Conv', 'sage', 'Sage']))
     use_bias = opt(lambda: rng.random() < 0.8)
     all_bias = all(use_bias) if isinstance(use_bias, list) else use_bias
-    return {'dims': dims, 'layer_types': lt,
-            'activations': opt(lambda: rng.choice(['Relu', 'Sigmoid', 'Identity', 'Softmax'])),
-            'use_bias': use_bias,
-            'normalizations': opt(lambda: rng.choice(['left', 'right', 'both', 'Both', None])),
-            'self_embeddings': opt(lambda: rng.random() < 0.7), 'sample_size': opt(lambda: rng.choice([1, 2, 3, 25])),
-            'loss': loss, 'optimizer': rng.choice(['Adam', 'GD']) if all_bias else 'Adam',
-            'n_epochs': rng.choice([0, 1, 2, 3, 5, 6]), 'random_state': rng.randrange(1000),
-            'validation': rng.choice([0, 0, 0.3, 0.5]), 'early_stopping': rng.random() < 0.5, 'patience': rng.choice([1, 2, 10]),
-            'refit': rng.random() < 0.4,
-            'adjacency_format': rng.choice(CLASSIFIER_ADJ_FMTS), 'features_format': rng.choice(CLASSIFIER_X_FMTS)}
+    cfg = {'dims': dims, 'layer_types': lt,
+           'activations': opt(lambda: rng.choice(['Relu', 'Sigmoid', 'Identity', 'Softmax'])),
+           'use_bias': use_bias,
+           'normalizations': opt(lambda: rng.choice(['left', 'right', 'both', 'Both', None])),
+           'self_embeddings': opt(lambda: rng.random() < 0.7), 'sample_size': opt(lambda: rng.choice([1, 2, 3, 25])),
+           'loss': loss, 'optimizer': rng.choice(['Adam', 'GD']) if all_bias else 'Adam',
+           'n_epochs': rng.choice([0, 1, 2, 3, 5, 6]), 'random_state': rng.randrange(1000),
+           'validation': rng.choice([0, 0, 0.3, 0.5]), 'early_stopping': rng.random() < 0.5, 'patience': rng.choice([1, 2, 10]),
+           'refit': rng.random() < 0.4,
+           'adjacency_format': rng.choice(CLASSIFIER_ADJ_FMTS), 'features_format': rng.choice(CLASSIFIER_X_FMTS)}
+    if rng.random() < 0.2:
+        # `layers=[...]`: layer objects, built directly or through get_layer, activations / losses by name or as objects,
+        # the sample size given or left to the default
+        specs = []
+        for li, out_c in enumerate(dims):
+            last = li == n_layers - 1
+            ctor = rng.choice(['Convolution', 'get_layer'])
+            specs.append({'ctor': ctor, 'type': rng.choice(BARE_TYPES), 'out': out_c,
+                          'activation': rng.choice(['Relu', 'Sigmoid', 'Identity']), 'loss': loss if last else None,
+                          'objects': rng.random() < 0.5, 'use_bias': True if cfg['optimizer'] == 'GD' else rng.random() < 0.8,
+                          'normalization': rng.choice(['left', 'right', 'both', None]), 'self_embeddings': rng.random() < 0.7,
+                          'sample_size': rng.choice(['default', 1, 2, 3])})
+        cfg['layers'] = specs
+    return cfg
 
 
 def _fix_cfg(cfg, rng):
@@ -876,7 +1004,7 @@ def evaluate(ctx, cases):
 # ----------------------------------------------------------------------------------------------
 # case streams
 # ----------------------------------------------------------------------------------------------
-SPARSE_FMTS = ('csr', 'csr', 'unsorted', 'dup', 'csc', 'coo', 'lil', 'bool', 'int')
+SPARSE_FMTS = ('csr', 'csr', 'unsorted', 'dup', 'csc', 'coo', 'lil', 'bool', 'int', 'float32', 'uint8', 'int32')
 ALL_FMTS = SPARSE_FMTS + ('dense', 'dense') + REFUSED_FMTS
 FEATURE_FMTS = ('dense', 'dense', 'dense', 'csr', 'csr', 'csc', 'coo', 'lil', 'int')
 
@@ -924,13 +1052,18 @@ def stream_forward(ctx, quick, scale=1.0):
         a = mk_adj(n, es, rand_weights(rng, len(es), 'int'))
         d = rng.randint(0, 2)
         c = rng.randint(1, 3)
-        kind = rng.choice(['x-rows', 'w-rows', 'zero-features', 'empty-graph'])
+        kind = rng.choice(['x-rows', 'w-rows', 'zero-features', 'zero-features-sparse', 'empty-graph', 'no-node'])
+        if kind.startswith('zero-features'):
+            d = 0
+        if kind == 'no-node':
+            n = 0
+            a = sparse.csr_matrix((0, 0), dtype=float)
         X = rand_matrix(rng, n + (1 if kind == 'x-rows' else 0), d)
         W = rand_matrix(rng, d + (1 if kind == 'w-rows' else 0), c)
         if kind == 'empty-graph':
             a = sparse.csr_matrix((n, n), dtype=float)
         cases += forward_cases(ctx, a, X, W, [0.5] * c, rng.choice(NORMS), rng.random() < 0.5, rng.choice(ACTS), 'csr',
-                               'dense', 'conv', tag='forward-degenerate')
+                               'csr' if kind == 'zero-features-sparse' else 'dense', 'conv', tag='forward-degenerate')
         ctx.count('graphs:degenerate:' + kind)
     return cases
 
@@ -1059,7 +1192,10 @@ def cases_of_desc(ctx, d):
     if kind == 'sampler':
         a = sparse.csr_matrix((np.array(d['data'], dtype=float), np.array(d['indices'], dtype=int), np.array(d['indptr'], dtype=int)),
                               shape=tuple(d['shape']))
-        return sampler_cases(ctx, a, d['sample_size'], d['seed'], d.get('container', 'csr'))
+        fmt = d.get('container', 'csr')
+        if fmt in ('unsorted', 'dup'):
+            fmt = 'csr'         # the recorded arrays already are the unsorted / duplicated storage
+        return sampler_cases(ctx, a, d['sample_size'], d['seed'], fmt)
     if kind == 'resolve':
         return resolve_cases(ctx, d['layer'], d['activation'], d['loss'], d['normalization'], d['self_embeddings'], d['out_channels'])
     if kind == 'check_output':
@@ -1123,7 +1259,7 @@ def search(ctx, pending):
 
 
 def replay(ctx, payload):
-    case = payload.get('case') or {}
+    case = payload.get('case') or (payload.get('what_no_longer_checks') or {}).get('case') or {}
     with warnings.catch_warnings():
         warnings.simplefilter('ignore')
         cs = cases_of_desc(ctx, case) if case.get('kind') else build_cases(ctx)
